@@ -37,7 +37,13 @@ type Interp struct {
 	curCtx  *base.EntryContext
 	cids    map[*base.EntryContext]int
 	tids    map[*base.TokenResult]int
+	clk     *vh.Clock
+	// park, when set, is run by the first exit-handler / OnCompleted call that follows (op exit2): it parks the
+	// first Exit inside its body until the overlapping second Exit call has started
+	park func()
 }
+
+const startMs = 1_900_000_000_000
 
 func New() vh.Interp {
 	// one P, one thread, no background GC: sync.Pool reuse is deterministic (private slot, then LIFO shared)
@@ -45,8 +51,7 @@ func New() vh.Interp {
 	runtime.LockOSThread()
 	debug.SetGCPercent(-1)
 	vh.Silence()
-	vh.NewClock(1_900_000_000_000)
-	it := &Interp{}
+	it := &Interp{clk: vh.NewClock(startMs)}
 	it.Reset()
 	return it
 }
@@ -58,6 +63,8 @@ func (it *Interp) Reset() {
 	it.curCtx = nil
 	it.cids = map[*base.EntryContext]int{}
 	it.tids = map[*base.TokenResult]int{}
+	it.park = nil
+	it.clk.SetMs(startMs)
 	// two collections empty every sync.Pool (primary → victim → gone): each case starts with an empty context pool
 	runtime.GC()
 	runtime.GC()
@@ -66,6 +73,46 @@ func (it *Interp) Reset() {
 func (it *Interp) call(ctx *base.EntryContext, what string) {
 	it.curCtx = ctx
 	it.log = append(it.log, what)
+	if it.park != nil && (strings.HasPrefix(what, "H") || strings.HasSuffix(what, "c")) {
+		p := it.park
+		it.park = nil
+		p()
+	}
+}
+
+// exit2 runs two Exit calls on one entry so that they overlap deterministically: the first is parked inside its
+// first exit handler / OnCompleted call, the second is started and runs until it returns or blocks (one P, cooperative
+// hand-over), then the first is released.
+func (it *Interp) exit2(e *base.SentinelEntry) string {
+	entered, release := make(chan struct{}), make(chan struct{})
+	doneA, doneB := make(chan struct{}), make(chan struct{})
+	var panA, panB interface{}
+	it.park = func() { close(entered); <-release }
+	go func() {
+		defer close(doneA)
+		defer func() { panA = recover() }()
+		e.Exit()
+	}()
+	select {
+	case <-entered:
+	case <-doneA:
+	}
+	go func() {
+		defer close(doneB)
+		defer func() { panB = recover() }()
+		e.Exit()
+	}()
+	for i := 0; i < 64; i++ {
+		runtime.Gosched()
+	}
+	it.park = nil
+	close(release)
+	<-doneA
+	<-doneB
+	if panA != nil || panB != nil {
+		return fmt.Sprintf("PANIC %v %v", panA, panB)
+	}
+	return "ok"
 }
 
 func (it *Interp) handler(id int, beh string) base.ExitHandler {
@@ -164,6 +211,9 @@ func (s *rSlot) Check(ctx *base.EntryContext) *base.TokenResult {
 		return base.NewTokenResultBlocked(s.typ)
 	case "bm":
 		return base.NewTokenResultBlockedWithMessage(s.typ, msg)
+	case "bd":
+		ctx.RuleCheckResult.DeepCopyFrom(base.NewTokenResultBlockedWithCause(s.typ, msg, s.rule, snap))
+		return ctx.RuleCheckResult
 	case "br":
 		ctx.RuleCheckResult.ResetToPass()
 		ctx.RuleCheckResult.ResetToBlocked(s.typ)
@@ -286,7 +336,7 @@ func (it *Interp) addSlot(sc *base.SlotChain, tok string) bool {
 		switch f[3] {
 		case "pass", "pass1", "nil", "wait", "wait0", "wait1", "panic":
 		default:
-			if len(f[3]) < 3 || !strings.Contains(" bf bc bo bn bt bb bm br bs ", " "+f[3][:2]+" ") {
+			if len(f[3]) < 3 || !strings.Contains(" bf bc bo bn bt bb bm br bs bd ", " "+f[3][:2]+" ") {
 				return false
 			}
 			t, err := strconv.ParseUint(f[3][2:], 10, 8)
@@ -422,6 +472,20 @@ func (it *Interp) Step(t []string, op string) string {
 		it.log = nil
 		r.e.Exit()
 		return "ok"
+	case t[0] == "exit2" && len(t) == 2:
+		r, ok := it.entries[t[1]]
+		if !ok || r.e == nil {
+			return "bad-op"
+		}
+		it.log = nil
+		return it.exit2(r.e)
+	case t[0] == "clock" && len(t) == 2:
+		ms, err := strconv.ParseUint(t[1], 10, 64)
+		if err != nil {
+			return "bad-op"
+		}
+		it.clk.SetMs(ms)
+		return ""
 	case t[0] == "log" && len(t) == 1:
 		return vh.List(it.log)
 	case t[0] == "ident" && len(t) == 2:
